@@ -143,7 +143,7 @@ def clause_b(c: Check):
     for n in walk_own(visit.node):
         if isinstance(n, ast.If) and isinstance(n.test, ast.Call) and unparse(n.test.func) == 'isinstance':
             d = ix.resolve_static(visit.module, visit, n.test.args[1])
-            r = n.body[0].value if isinstance(n.body[0], ast.Return) else None
+            r = util.block_return(visit, n.body)
             if isinstance(d, ClassDef) and isinstance(r, ast.Call) and isinstance(r.func, ast.Attribute):
                 routed[d.key] = r.func.attr
     for d in drivers:
@@ -516,8 +516,8 @@ def clause_d(c: Check):
     g = ix.func('exactly_lib.impls.instructions.assert_.process_output.impl.exit_code.getter_from_atc:_ExitCodeGetter._get_exit_code')
     opens = [n for n in ast.walk(g.node) if isinstance(n, ast.Call) and isinstance(n.func, ast.Attribute) and n.func.attr == 'open']
     ok = len(opens) == 1 and unparse(opens[0].func.value).endswith('.result.exitcode_file')
-    rets = [n for n in ast.walk(g.node) if isinstance(n, ast.Return) and n.value is not None]
-    ok = ok and len(rets) == 1 and isinstance(rets[0].value, ast.Call) and unparse(rets[0].value.func) == 'int'
+    rets = util.returned_values(g)
+    ok = ok and len(rets) == 1 and isinstance(rets[0], ast.Call) and unparse(rets[0].func) == 'int'
     c.expect(ok, 'C10-d', 'exit-code-reader', 'the exit-code assertion does not read the integer in result.exitcode_file',
              g.loc())
     pof = ix.module('exactly_lib.util.process_execution.process_output_files')
